@@ -465,3 +465,131 @@ def random_temporal_units(rnd, n):
                 t = {'k': 'clause', 'op': 'drop', 'ds': t, 'items': [rnd.choice([x for x in mnames if x != m])]}
         units.append({'id': 't%d' % i, 'env': env, 'term': t, 'cc': True})
     return units
+
+
+# ---- joins (C04) -----------------------------------------------------------------------------------
+
+def random_join_units(rnd, n):
+    """Random joins of 2-3 datasets whose identifier sets are equal or nested, partial key overlap, clashing measure
+    names resolved by the body, filters / calc over both sides, aggr, using, cross joins with renamed identifiers."""
+    units = []
+    for i in range(n):
+        how = rnd.choice(['inner', 'inner', 'left', 'left', 'full', 'cross'])
+        nds = rnd.choice([2, 2, 3]) if how != 'cross' else 2
+        full_ids = [('Id_1', 'Integer'), ('Id_2', 'String')][:rnd.choice([1, 2])]
+        env, ops, allmeas = {}, [], {}
+        aliased = rnd.random() < 0.5
+        for d in range(nds):
+            nm = 'DS_%d' % (d + 1)
+            if how == 'full' or d == 0 or len(full_ids) == 1 or rnd.random() < 0.5:
+                ids = list(full_ids)
+            else:
+                ids = full_ids[:1]                      # nested identifier set
+            if how == 'cross':
+                ids = [('Id_%d' % (d + 1) if rnd.random() < 0.7 else 'Id_1', 'Integer')]
+            meas = []
+            for j in range(rnd.choice([1, 2])):
+                mn = rnd.choice(['Me_1', 'Me_%d' % (d + 2), 'Me_%d%d' % (d + 1, j)])
+                if mn not in [m[0] for m in meas]:
+                    meas.append((mn, rnd.choice(['Integer', 'Integer', 'Number', 'String'])))
+            others = [(m, 'M', t) for m, t in meas]
+            if rnd.random() < 0.3:
+                others.append(('At_%d' % (d + 1), 'A', 'String'))
+            env[nm] = gen.shuffled(rnd, gen.dataset(rnd, ids, others, rnd.choice([0, 1, 2, 3, 5, 8]), keyspace=rnd.choice([3, 4])))
+            alias = ('d%d' % (d + 1)) if aliased else nm
+            ops.append({'t': var(nm), 'a': alias})
+            for c in env[nm]['comps']:
+                allmeas.setdefault(c['n'], []).append((alias, c))
+        if how == 'inner' and rnd.random() < 0.4:
+            rnd.shuffle(ops)                             # the superset need not come first for inner joins
+        # virtual names
+        def shared(nme):
+            return how != 'cross' and all(c['r'] == 'I' for _, c in allmeas[nme])
+        vnames = {}
+        for nme, owners in allmeas.items():
+            for a, c in owners:
+                vn = nme if (len(owners) == 1 or shared(nme)) else '%s#%s' % (a, nme)
+                vnames[vn] = c
+        clashes = sorted({vn.split('#')[1] for vn in vnames if '#' in vn})
+        body = []
+        comps = dict(vnames)
+        if rnd.random() < 0.35:                          # filter on a numeric virtual component
+            nums = [vn for vn, c in comps.items() if c['t'] in ('Integer', 'Number') and c['r'] != 'I']
+            if nums:
+                body.append({'op': 'filter', 'items': [{'k': 'bin', 'op': rnd.choice(['>', '<=', '<>']), 'l': var(rnd.choice(nums)), 'r': const(I(rnd.choice([0, 1, 2])))}]})
+        if rnd.random() < 0.35:
+            nums = [vn for vn, c in comps.items() if c['t'] == 'Integer' and c['r'] != 'I']
+            if len(nums) >= 1:
+                a = rnd.choice(nums)
+                b = rnd.choice(nums)
+                body.append({'op': 'calc', 'items': [{'name': 'Zc', 'role': 'M', 'expr': {'k': 'bin', 'op': rnd.choice(['+', '-', '*']), 'l': var(a), 'r': var(b)}}]})
+                comps['Zc'] = {'n': 'Zc', 'r': 'M', 't': 'Integer'}
+        # resolve clashes
+        for cn in clashes:
+            vs = [vn for vn in comps if '#' in vn and vn.split('#')[1] == cn]
+            if comps[vs[0]]['r'] == 'I':                 # cross join: identifiers must be renamed apart
+                ren = [[vn, '%s_%s' % (cn, vn.split('#')[0])] for vn in vs]
+                body.append({'op': 'rename', 'items': ren})
+                for a, b in ren:
+                    comps[b] = comps.pop(a)
+                continue
+            mode = rnd.choice(['drop', 'rename', 'keep'])
+            if mode == 'drop':
+                keepone = rnd.choice(vs)
+                body.append({'op': 'drop', 'items': [v for v in vs if v != keepone]})
+                for v in vs:
+                    if v != keepone:
+                        comps.pop(v)
+            elif mode == 'rename':
+                ren = [[vn, '%s_%s' % (cn, vn.split('#')[0])] for vn in vs]
+                body.append({'op': 'rename', 'items': ren})
+                for a, b in ren:
+                    comps[b] = comps.pop(a)
+            else:
+                keepone = rnd.choice(vs)
+                others = [vn for vn, c in comps.items() if c['r'] != 'I' and '#' not in vn and rnd.random() < 0.5]
+                if any(k.get('op') in ('keep',) for k in body):
+                    body.append({'op': 'drop', 'items': [v for v in vs if v != keepone]})
+                    for v in vs:
+                        if v != keepone:
+                            comps.pop(v)
+                else:
+                    keepl = [keepone] + others
+                    # every other still-clashing name must be resolved by this keep as well
+                    for cn2 in clashes:
+                        if cn2 != cn:
+                            v2 = [vn for vn in comps if '#' in vn and vn.split('#')[1] == cn2 and comps[vn]['r'] != 'I']
+                            if v2:
+                                keepl.append(rnd.choice(v2))
+                    body.append({'op': 'keep', 'items': keepl})
+                    for vn in list(comps):
+                        if comps[vn]['r'] != 'I' and vn not in keepl:
+                            comps.pop(vn)
+        # the clauses of a join body come in the order filter, calc/aggr, keep/drop, rename
+        order = {'filter': 0, 'calc': 1, 'aggr': 1, 'keep': 2, 'drop': 2, 'rename': 3}
+        body.sort(key=lambda c: order[c['op']])
+        kd = [c for c in body if c['op'] in ('keep', 'drop')]
+        if len(kd) > 1:                                  # one keep/drop clause only: merge drops, give up on mixed
+            if all(c['op'] == 'drop' for c in kd):
+                merged = {'op': 'drop', 'items': [x for c in kd for x in c['items']]}
+                body = [c for c in body if c['op'] not in ('keep', 'drop')] + [merged]
+                body.sort(key=lambda c: order[c['op']])
+            else:
+                continue
+        rn = [c for c in body if c['op'] == 'rename']
+        if len(rn) > 1:
+            merged = {'op': 'rename', 'items': [x for c in rn for x in c['items']]}
+            body = [c for c in body if c['op'] != 'rename'] + [merged]
+        names_after = [vn.split('#')[-1] for vn in comps]
+        if len(set(names_after)) != len(names_after):
+            continue
+        using = []
+        if how in ('inner', 'left') and rnd.random() < 0.25:
+            common = set(c['n'] for c in env[ops[0]['t']['name']]['comps'] if c['r'] == 'I')
+            for o in ops[1:]:
+                common &= set(c['n'] for c in env[o['t']['name']]['comps'] if c['r'] == 'I')
+            smaller = [set(c['n'] for c in env[o['t']['name']]['comps'] if c['r'] == 'I') for o in ops[1:]]
+            if common and all(s_ == common for s_ in smaller):
+                using = sorted(common)
+        units.append({'id': 'j%d' % i, 'env': env, 'cc': True, 'term': {'k': 'join', 'how': how, 'ops': ops, 'using': using, 'body': body}})
+    return units
